@@ -22,7 +22,7 @@ MANIFEST = {
             "time lock, fixed schedule, owner-only return and conservation exhaustively (2 owners x 2 denoms x durations 1-3 x amounts 1-2, "
             "<=4 locks, depth 4 quick / 5 thorough). One behaviour per distinct (state, last action) of a bounded model is executed on the "
             "real app (nested store branches) and lock records, balances, module account, raw reference keys, accumulation answers are compared "
-            "after every action; every near miss the spec refuses must be refused. Random histories (4 owners, 3 denoms incl. a prefix pair, "
+            "after every action; every near miss the spec refuses must be refused. Random histories (4 owners, 5 denoms incl. a prefix pair and two path-like denominations nested under another (aaa, aaa/zz, aaa/a); every third history scaled - amounts are multiples of 2^61 / 10^18 / 2^64+1 / 10^16 logged in units -, "
             "5 durations, 250-300 calls, up to ~35 live locks, partial unlocks, sweeps landing exactly on end times) are validated line by line.",
     "note": TRUST + " Transactions emulated like baseapp (ValidateBasic, cache context + recover). Query boundaries (strict 'after', "
             "inclusive 'before'/'longer') are the documented ones of iterator.go. MsgForceUnlock is modelled as the stated administrative exception "
